@@ -88,8 +88,12 @@ package responseassembler
 //@   ensures invPLT(prs)
 //@   -- every ignored link ends up recorded, so it will not be sent in this scope while the request is in progress
 //@   ensures forall j int :: 0 <= j && j < len(links) ==> rc(trk(prs, requestID), links[j]) >= 1
+//@   -- ... and it is THIS request that holds the reference: the link stays recorded until this request finishes, however many
+//@   -- other requests that also hold it finish first
+//@   ensures forall j int :: 0 <= j && j < len(links) ==> occ(trk(prs, requestID), requestID, links[j]) >= 1
 //@   loop 1 invariant invPLT(prs) && linkTracker == old(trk(prs, requestID)) && trk(prs, requestID) == old(trk(prs, requestID))
 //@   loop 1 invariant forall j int :: 0 <= j && j < idx1 ==> rc(linkTracker, links[j]) >= 1
+//@   loop 1 invariant forall j int :: 0 <= j && j < idx1 ==> occ(linkTracker, requestID, links[j]) >= 1
 
 //@ -- ============================ C15: what a transaction reserves is what it adds to the message builder ============================
 //@ -- interface-level contract of a response operation: build() raises the builder's block bytes by exactly size().
